@@ -93,6 +93,53 @@ def processTable {Row R : Type} (proc : Row → RowOutcome R) : List (String × 
       | none => none
       | some res => some ((id, out) :: res)
 
+/-! ### the fault decision table of one sample row (checks in source order) -/
+
+/-- what is known about one reported channel of a row when MEF units are requested -/
+structure MefFacts where
+  fxnAvailable : Bool        -- the referenced beads row produced a transformation function
+  sameInstrument : Bool
+  hasMefValues : Bool        -- the beads row lists MEF values for this channel
+  ampMatches : Bool
+  voltageMatches : Bool      -- or the sample records no voltage
+  deriving Repr, DecidableEq
+
+structure SampleRow where
+  fileFound : Bool
+  nEvents : Nat
+  channels : List (List Char × MefFacts)    -- reported channels in instrument order: units cell, MEF facts
+  beadsTableGiven : Bool
+  gateFractionOk : Bool
+  deriving Repr
+
+/-- first failing check for one reported channel -/
+def channelFault (beadsTableGiven : Bool) (u : List Char) (m : MefFacts) : Option Fault :=
+  match classify u with
+  | .other => some .unitsNotRecognized
+  | .mef =>
+    if !m.fxnAvailable then some .mefNotAvailable
+    else if beadsTableGiven && !m.sameInstrument then some .otherInstrument
+    else if beadsTableGiven && !m.hasMefValues then some .noCurveForChannel
+    else if beadsTableGiven && !m.ampMatches then some .amplificationType
+    else if beadsTableGiven && !m.voltageMatches then some .detectorVoltage
+    else if !m.hasMefValues then some .noCurveForChannel     -- `to_mef` refuses a channel without curve
+    else none
+  | _ => none
+
+/-- the documented fault a sample row reports, if any (checks in the order of the source) -/
+def sampleRowFault (r : SampleRow) : Option Fault :=
+  if !r.fileFound then some .fileNotFound
+  else if r.nEvents < 400 then some .tooFewEvents
+  else match r.channels.findSome? (fun (u, m) => channelFault r.beadsTableGiven u m) with
+    | some f => some f
+    | none => if !r.gateFractionOk then some .gateFraction else none
+
+/-- a row's outcome: every documented fault is a row error, never an escape -/
+def sampleRowOutcome (r : SampleRow) : RowOutcome Unit :=
+  match sampleRowFault r with
+  | some f => .fault f
+  | none => .ok ()
+
 /-! ### tables and workbook -/
 
 /-- `read_table(..., index_col)`: rows whose identifier is null are dropped; duplicated identifiers refused -/
